@@ -145,6 +145,17 @@ func (r *obsRun) write(v hive.Variable[int], val int, compute bool) {
 	}
 }
 
+// writeInit: a write through Variable.Init.  Init does not return the previous value; it is read before the call (the
+// scenarios that use it have no other writer that could change the value in between: none at all, or one whose update is
+// already applied and who is held while it notifies).
+func (r *obsRun) writeInit(v hive.Variable[int], val int) {
+	prev := v.Get()
+	v.Init(val)
+	if prev != val {
+		r.lg.add(core.Ev{"op": "write", "prev": prev, "new": val})
+	}
+}
+
 func freeVar(enc *json.Encoder, rng *rand.Rand, tr int) int {
 	r := newObsRun("var")
 	v := hive.NewVariable[int]()
@@ -267,6 +278,21 @@ func forcedVar(enc *json.Encoder, scenario int) int {
 		q()
 		r.gate.ReleaseAll()
 		subs = []int{1}
+	case 7: // the less used writer Init (Set under another name) on a variable that already has subscribers, then as the last write
+		r.subscribeVar(v, 1, nil)
+		r.subscribeVar(v, 2, nil)
+		r.writeInit(v, 1001)
+		r.write(v, 2001, false)
+		r.writeInit(v, 3001)
+	case 8: // Init arrives while another writer's notification is still being delivered (it has to queue behind it)
+		r.subscribeVar(v, 1, nil)
+		r.subscribeVar(v, 2, nil)
+		r.gate.Hold("cb-1")
+		r.spawn(101, func() { r.write(v, 1001, false) })
+		q()
+		r.spawn(102, func() { r.writeInit(v, 2001) })
+		q()
+		r.gate.ReleaseAll()
 	}
 	hung := r.wait(5 * time.Second)
 	hive.VerifHook = nil
@@ -621,7 +647,7 @@ func reactObs(args []string) int {
 	enc := json.NewEncoder(w)
 	rng := rand.New(rand.NewSource(*seed))
 	hangs, n := 0, 0
-	for sc := 0; sc < 7; sc++ {
+	for sc := 0; sc < 9; sc++ {
 		hangs += forcedVar(enc, sc)
 		n++
 	}
